@@ -901,6 +901,15 @@ def construct(ex, n, st, ct):
     args = n.get('inner', [])
     if k == 'string':
         ex.scan_divisions(n, st)      # the text itself is not modelled, but whatever is computed to build it must be defined (C17)
+        if len(args) >= 1 and any(x.get('kind') in ('ConditionalOperator', 'BinaryConditionalOperator') for x in _walk_nodes(n)):
+            # a text chosen by a condition: evaluate the choice (Opaque with both texts and the condition), do not pick the first literal
+            try:
+                v = ex.ev(args[0], st)
+            except ExtractionError:
+                v = None
+            if isinstance(v, Opaque):
+                return v
+            return Opaque('string')
         lit = find_string_literal(n)
         if lit is not None:
             return Opaque('string:' + lit)
